@@ -49,7 +49,8 @@ class Unit:
 
 
 def save_replay(pid, text):
-    d = skv._mk(os.path.join(skv.VERIF, "replays"))
+    # (runs against a scratch tree keep their replay files out of the committed directory)
+    d = skv._mk(os.path.join(skv.VERIF, "replays") if not os.environ.get("VERIF_REPO") else os.path.join(skv.VERIF, "build", "scratch-replays"))
     h = hashlib.sha256(text.encode()).hexdigest()[:12]
     p = os.path.join(d, "%s-%s.prog" % (pid, h))
     with open(p, "w") as f:
